@@ -586,7 +586,7 @@ def _run_reinforce(cfg, stats, atol):
     m.policy.log.clear()
     m.baseline.alpha = 0
     m.baseline.warmup_baseline.v = None
-    m.data_cfg.update(batch_size=b, val_batch_size=bs, test_batch_size=bs, train_data_size=N, val_data_size=N + 1, test_data_size=N)
+    m.data_cfg.update(batch_size=b, val_batch_size=bs, test_batch_size=bs, train_data_size=N, val_data_size=N, test_data_size=N)
     m.shuffle_train_dataloader = cfg["shuffle"]
     m._trainer = None
     found = []
@@ -641,18 +641,18 @@ def perm_configs(N, all_perms_upto, seed):
     return out
 
 
-TRIGGERS = [
+TRIGGERS = [  # fixed vocabulary, narrowest first
     ("N==1", lambda c: c["N"] == 1),
     ("eval_batch_size>N", lambda c: c.get("eval_bs") is not None and c["eval_bs"] > c["N"]),
     ("eval_batch_size==1", lambda c: c.get("eval_bs") == 1),
-    ("eval_partial_last_batch", lambda c: c.get("eval_bs") is not None and c["N"] > c["eval_bs"] and c["N"] % c["eval_bs"] != 0),
+    ("eval_partial_last_batch", lambda c: c.get("eval_bs") is not None and c["N"] % c["eval_bs"] != 0),
     ("eval_multi_batch", lambda c: c.get("eval_bs") is not None and c["N"] > c["eval_bs"]),
     ("batch_size>N", lambda c: c.get("b") is not None and c["b"] > c["N"]),
     ("batch_size==1", lambda c: c.get("b") == 1),
-    ("partial_last_batch", lambda c: c.get("b") is not None and c["N"] > c["b"] and c["N"] % c["b"] != 0),
+    ("batch_of_one", lambda c: c.get("b") is not None and (c["b"] == 1 or c["N"] % c["b"] == 1)),
+    ("partial_last_batch", lambda c: c.get("b") is not None and c["N"] % c["b"] != 0),
     ("shuffle", lambda c: bool(c.get("shuffle"))),
     ("multi_batch", lambda c: c.get("b") is not None and c["N"] > c["b"]),
-    ("rewrap", lambda c: bool(c.get("rewrap"))),
     ("always", lambda c: True),
 ]
 
@@ -749,7 +749,7 @@ def unit(item):
         p.violation(
             dict(property=PID, env=env_name, config=config, observable=obs, trigger=trig),
             dict(kind="c17_config", cfg=cfg, failing_configurations_in_unit=len(lst)),
-            f"{env_name} {config}: N={cfg['N']} batch_size={cfg.get('b')} eval_batch_size={cfg.get('eval_bs')} shuffle={cfg.get('shuffle')} perms={cfg.get('perms')}: {text} ({len(lst)} failing configuration(s) in this unit)",
+            f"{env_name} {config}: " + " ".join(f"{k}={cfg[k]}" for k in ("N", "N2", "eval_bs", "b", "shuffle", "perms", "epochs") if cfg.get(k) is not None) + f": {text} ({len(lst)} failing configuration(s) in this unit)",
         )
     p.sample(dict(unit=f"{env_name}|{config}", configs=p.stats.get("configs", 0), states=p.stats.get("states", 0)), cap=1)
     return p
@@ -804,6 +804,17 @@ def incidental_notes(rep):
             m.setup()
         except Exception as e:
             rep.info.append(f"not judged by C17: REINFORCE(baseline='rollout_only').setup() raises {type(e).__name__}: {e} (wrap_dataset runs before baseline.setup)")
+    except Exception:
+        pass
+    try:
+        from rl4co.models.rl.reinforce.baselines import RolloutBaseline
+
+        env = make_env("TensorDictDataset", fresh=True)
+        bl = RolloutBaseline()
+        try:
+            bl.setup(MarkerPolicy(), env, batch_size=2, dataset=env.dataset(2))
+        except Exception as e:
+            rep.info.append(f"not judged by C17: RolloutBaseline.setup(policy, env, dataset=ds) ignores ds ({type(e).__name__}: {e} on first use; a stale self.dataset is evaluated afterwards)")
     except Exception:
         pass
     try:
